@@ -397,7 +397,15 @@ def fam_batch(rng, pid):
         b.client('x', [{'op': 'QClose', 'q': 0}])
     elif r < 0.55:
         b.client('x', [{'op': 'PauseAndWait'}, {'op': 'Purge', 'q': 0}, {'op': 'Resume'}])
-    return b.prog(cfg)
+    p = b.prog(cfg)
+    if rng.random() < 0.3:
+        # every item fails (error or panic) and nobody reads the stream while the batch runs: the stream has to hold them all
+        p['outcome'] = {str(j): rng.choice(['err', 'panic']) for j in b.jobs}
+        for c in p['clients']:
+            for o in c['ops']:
+                if o['op'] == 'BatchRead' and rng.random() < 0.7:
+                    o['op'] = 'BatchWait'
+    return p
 
 
 def fam_handle(rng, pid):
